@@ -137,13 +137,17 @@ func extractMethodsFromNamedType(named *types.Named) []TypeMethod {
 	ptrType := types.NewPointer(named)
 	methodSet := types.NewMethodSet(ptrType)
 
+	// Method set of T itself: exactly the methods a value of T offers, including
+	// those promoted through an embedded pointer
+	valueSet := types.NewMethodSet(named)
+
 	for i := 0; i < methodSet.Len(); i++ {
 		selection := methodSet.At(i)
 		method := selection.Obj().(*types.Func)
 		sig := method.Type().(*types.Signature)
 
-		// Determine if receiver is pointer
-		recvIsPointer := isPointerReceiver(sig.Recv().Type())
+		// A method needs a pointer receiver iff a value of T does not have it
+		recvIsPointer := valueSet.Lookup(method.Pkg(), method.Name()) == nil
 
 		methods = append(methods, TypeMethod{
 			Name:              method.Name(),
@@ -154,12 +158,6 @@ func extractMethodsFromNamedType(named *types.Named) []TypeMethod {
 	}
 
 	return methods
-}
-
-// isPointerReceiver checks if receiver type is a pointer
-func isPointerReceiver(t types.Type) bool {
-	_, ok := t.(*types.Pointer)
-	return ok
 }
 
 // extractMethodTypesFromTuple converts types.Tuple to MethodType slice
